@@ -20,6 +20,7 @@ CFG = {
         "modelled by hand (tied by correspondence): Channel.addConnection/connectionActive/addConnectionToPeer/removeClosedConn/connectionCloseStateChange (bookkeeping part), Connect's mismatch branch, Peer.addConnection/removeConnection/connectionCloseStateChange/addSC/delSC/canRemove, PeerList.Add/Remove (reference counts), RootPeerList.Add/Get/GetOrAdd/onClosedConnRemoved; regenerated from source: connection state and direction constants",
         "atomicity granularity: one model step per lock-protected region / state read; merged actions are listed in the header of Model/PeerBook.v",
         "the connection state machine itself (who changes the state when) is environment: every forward change at any time, each followed by a close-state callback",
+        "harness (peerbook): the position of a connection's state change relative to the appends of its own activation is taken from the implementation (points peer.addConnection.appended / chan.addConnectionToPeer.done, observe-then-replay); when it cannot be observed (activation in flight at a recording point, library without the points, the known collection window opening without a forced schedule) the channel's case is judged by the statement-level oracles only",
         "harness: quiescence is detected by polling (stable snapshots + oracles hold, 3 s timeout); connection state changes are read from the implementation (VerifConnState) and fed to the model as labels"
     ],
     "assumptions": [
